@@ -57,6 +57,9 @@ class Holder(object):
   def put(self, k, v):
     _put(self.d, k, v)
 
+  def put_via_method(self, k, v):
+    self.put(k, v)
+
   def put_twice_removed(self, k, v):
     self._inner(self.d, k, v)
 
